@@ -869,19 +869,24 @@ class Module(ABC):
             param_state: State of the setted parameters, internally used such that this
                 function does not modify global state.
         """
-        # Note: `data_set` does not support arrays for `val`.
         is_node_param = key in self.nodes.columns
         data = self.nodes if is_node_param else self.edges
         viewed_inds = self._nodes_in_view if is_node_param else self._edges_in_view
         if key in data.columns:
             not_nan = ~data[key].isna()
-            added_param_state = [
-                {
-                    "indices": np.atleast_2d(viewed_inds[not_nan]),
-                    "key": key,
-                    "val": jnp.atleast_1d(jnp.asarray(val)),
-                }
-            ]
+            val = jnp.atleast_1d(jnp.asarray(val))
+            inds = viewed_inds[not_nan]
+            # `indices` has shape `(num_values, num_comps_per_value)`: a single value is
+            # shared by all compartments (or synapses) in view, an array has one value
+            # for each of them.
+            if val.shape[0] == 1:
+                inds = np.atleast_2d(inds)
+            else:
+                assert val.shape == (
+                    len(inds),
+                ), f"`val` has shape {val.shape}, but the view has {len(inds)} entries with a value for '{key}'."
+                inds = inds.reshape(-1, 1)
+            added_param_state = [{"indices": inds, "key": key, "val": val}]
             if param_state is not None:
                 param_state += added_param_state
             else:
